@@ -64,9 +64,9 @@ P("C14", "proof", True, KB,
   "float32 evaluation agrees with the real-arithmetic criterion only within the magnitude bound stated in the bounded layer.",
   "P: NVG/HVG/MV obligations; B: bounded/c14.py.", notdec=["float32 ties beyond |values|,|times| < 2^11"])
 P("C15", "other", True, KB,
-  "Proved: embedding kernel spec and bounds of the surrogate kernels' array accesses; (TWINS) the recurrence-plot twins kernel _twins_r lists, for every state j, exactly the states k with identical recurrence columns, equal non-trivial neighbour counts and |j-k| > min_dist, each exactly once (the Python list of lists is modelled by its multiplicity table). Bounded: permutation exactness, amplitude spectra, twin structure, repeated calls, rescaling histories.",
-  "The Surrogates twins kernel (_twins_s, three-level lists) and the twin-surrogate walks are bounded-only; FFT accuracy is numerical.",
-  "P: _embed_time_series_array, _twins_r; R: run-time contract check; B: bounded/c15.py.", notdec=["FFT round-trip accuracy", "_twins_s / _twin_surrogates_* (Python list walks): bounded layer only"])
+  "Proved: embedding kernel spec and bounds of the surrogate kernels' array accesses; (TWINS) the recurrence-plot twins kernel _twins_r lists, for every state j, exactly the states k with identical recurrence columns, equal non-trivial neighbour counts and |j-k| > min_dist, each exactly once (the Python list of lists is modelled by its multiplicity table); (WALK) both twin-surrogate walks (_twin_surrogates_r / _twin_surrogates_s, random draws havoc) keep the visited state index inside [0,N), take twin entries only from inside the twin list of the current state, and write only rows / samples of the original embedding / data. Bounded: permutation exactness, amplitude spectra, twin structure, repeated calls, rescaling histories.",
+  "The Surrogates twins kernel (_twins_s: recurrence matrix, neighbour counts and three-level lists built in one function) is bounded-only; which successor a walk takes is random and only constrained, not determined; FFT accuracy is numerical.",
+  "P: _embed_time_series_array, _twins_r, _twin_surrogates_r, _twin_surrogates_s; R: run-time contract check; B: bounded/c15.py.", notdec=["FFT round-trip accuracy", "_twins_s: bounded layer only"])
 P("C16", "other", True, KB,
   "Proved: (SYMM) each of the six symmetrisation helpers returns exactly the stated combination of M[i,j] and M[j,i]; (MATRIX) the N x N event-synchronisation and coincidence matrices hold, for every pair i != j, the value the pairwise routine returned for the columns i and j (each pair evaluated once, first component to [i,j], second to [j,i], zero diagonal) - py_mode VCs with loop invariants, column views and transposes. Bounded: all binary event pairs up to T<=8 against definition-level ES / ECA counting formulas, exchange / shift / rescale relations (time units 2^-40..2^40), thresholding incl. integer dtypes, symmetrisation table.",
   "The pairwise routines event_synchronization / event_coincidence_analysis and make_event_matrix are vectorised NumPy / string-handling code outside the VC generator's subset: bounded layer only.",
